@@ -70,7 +70,9 @@ def eval_case(case):
     per = 2 if k > 0 else 1
     for lane in range(sims):
         cap, _ = out[lane * per].split(' ')
-        if cap.endswith('!'): return True, {'skipped': 'no consistent labelling (combinational loop)'}, None
+        # '!' = KV.iterAccepted net (k-1) off: at SOME iterate 0..k-1 the evaluator's labelling is not accepted by consistentB
+        # (combinational loop) — exactly the hypothesis `hacc` of C01.cycle_iter_iterState is not met: lane skipped
+        if cap.endswith('!'): return True, {'skipped': 'no consistent labelling at some iterate (combinational loop)'}, None
         for j, ch in enumerate(cap):
             if ch == '-': continue
             got = int(s1[j, lane]) & 1
@@ -154,7 +156,9 @@ def corr_and_oracle(ck, n_circuits, thorough=False):
                 sample={'net': dump, 'sims': len(case['stim'][0]), 'strip': case['strip'], 'reuse': case['reuse'],
                         'path': case['path'], 'cycles': case['cycles']},
                 tag=[f"path:{case['path']}", f"cycles:{case['cycles']}", f"strip:{case['strip']}", f"reuse:{case['reuse']}",
-                     f"ff:{min(d['ff'], 3)}", f"unconn:{min(d['unconnected_pins'], 3)}", f"sims:{len(case['stim'][0])}", hyp_tag] +
+                     f"ff:{min(d['ff'], 3)}", f"unconn:{min(d['unconnected_pins'], 3)}", f"sims:{len(case['stim'][0])}", hyp_tag,
+                     # hypotheses forksOKB / linesDrivenB (/ arityOKB) of C01.cycle_iter_spec*, cycle_iter_iterState on the real circuit and order
+                     'oracle-' + common.netspec_hyp(c)] +
                     (['open-data-pin-state-element'] if any(('dff' in n.kind.lower() or 'latch' in n.kind.lower()) and
                                                             (len(n.ins) == 0 or n.ins[0] is None) for n in c.nodes) else []))
         if not ok:
@@ -340,6 +344,7 @@ def cycle_tie(ck, n_circuits, thorough=False):
             # (driver simopscert) and the map certificate MapIn.check on the REAL tables of this option tuple (driver mapok):
             # hypotheses of cycle_step / cycle_iter / cycle_on_memory / cycle_end_to_end
             hyp_tag = common.allcirc_hyp(ck, c, [case['strip']], 'C01 cycle')
+            spec_tag = 'cycle-' + common.netspec_hyp(c)     # forksOKB, linesDrivenB, arityOKB: hypotheses of C01.cycle_iter_spec* (tag only: unknown kinds are outside)
             try:
                 so = simcorr.real_simops(c, case['strip'], case['reuse'])
                 opsS = '/'.join(','.join(str(int(x)) for x in row[:6]) for row in so.ops)
@@ -352,7 +357,7 @@ def cycle_tie(ck, n_circuits, thorough=False):
                 ck.broken_tie('map certificate MapIn.check on the real tables of a cycle case (hypothesis of cycle_on_memory)', mc, inp={'cycle_case': case})
             ck.case(key=('cycle', circ.dump_net(c), case['m'], case['strip'], case['reuse'], case['path'], case['k']),
                     nontrivial=d['ff'] >= 1 and case['k'] >= 1,
-                    tag=[hyp_tag, f"cycle-mapcert:{'ok' if mc == 'ok' else 'FAIL'}", 'tie:cycle', f"tie-m:{case['m']}", f"tie-k:{min(case['k'], 3)}", f"tie-ff:{min(d['ff'], 3)}",
+                    tag=[hyp_tag, spec_tag, f"cycle-mapcert:{'ok' if mc == 'ok' else 'FAIL'}", 'tie:cycle', f"tie-m:{case['m']}", f"tie-k:{min(case['k'], 3)}", f"tie-ff:{min(d['ff'], 3)}",
                          f"tie-memthm:{case.pop('_mem_thm', '?')}"])
             if not ok:
                 ck.broken_tie('cycle model correspondence (Model/Cycle.lean vs LogicSim.cycle)', f'real {obs} != model {exp}'[:400],
@@ -367,7 +372,8 @@ def run(ck):
     wide_gate_oracle(ck, 25 if ck.tier == 'quick' else 200)
     if ck.broken and not ck.violations:
         corr_and_oracle(ck, n * 5, ck.tier == 'thorough')
-    ck.assumptions += ['state elements and ports have a connected data pin (an unconnected one raises in SimOps, finding D9)',
+    ck.assumptions += ['a state element with open data pin captures constant 0 (D9 repaired: compared by the oracle against KV.nextStateFrom); '
+                       'cycle(k) theorems against the independent specification (C01.cycle_iter_spec*) need forksOKB and linesDrivenB: tags netspec-hyp:*',
                        'node kinds are covered by the prefix table; one output pin per combinational cell']
     return ck.finish(RULE)
 
